@@ -29,6 +29,24 @@ TECHNIQUE = "static analysis: constant-argument flow, ordering of emitted fragme
 M = "python.lib._generate_types"
 
 
+def _atoms(guards) -> list:
+    """Guards as texts, conjunctions under a positive polarity (and disjunctions under a negative one) split into their operands."""
+    out = []
+
+    def add(t, pol):
+        if isinstance(t, ast.UnaryOp) and isinstance(t.op, ast.Not):
+            add(t.operand, not pol)
+        elif isinstance(t, ast.BoolOp) and ((isinstance(t.op, ast.And) and pol) or (isinstance(t.op, ast.Or) and not pol)):
+            for v in t.values:
+                add(v, pol)
+        else:
+            out.append(("" if pol else "not ") + ast.unparse(t))
+
+    for t, pol in guards:
+        add(t, pol)
+    return out
+
+
 def run(ctx) -> None:
     p = ctx.p
     ctx.rule("RECURSE", "descend_once / descend generated with recurse=False / True", floor=2)
@@ -65,7 +83,10 @@ def run(ctx) -> None:
     if kinds == ["self", "from"] and ".descend()" in texts[1][1]:
         ctx.ok("PRE-ORDER", u, texts[0][2], what="`yield X` is placed before `yield from X.descend()`")
         g = [("" if pol else "not ") + ast.unparse(t) for t, pol in S.guards_of(texts[1][2], parents)]
-        if "self._recurse" in g and not [x for x in S.guards_of(texts[0][2], parents)]:
+        extra = [x for x in _atoms(S.guards_of(texts[1][2], parents)) if x != "self._recurse" and not (x.startswith("self._descendability[") and x.endswith("]"))]
+        if extra:
+            ctx.fail("PRE-ORDER", u, texts[1][2], f"`yield from X.descend()` is emitted only under the additional condition(s) {extra}: for the classes excluded by it the descendants of a nested instance are missing from descend(), which then differs from the transitive closure of descend_once()", construct="recursion: extra condition")
+        elif "self._recurse" in g and not [x for x in S.guards_of(texts[0][2], parents)]:
             ctx.ok("PRE-ORDER", u, texts[1][2], what="the recursive part only under self._recurse; the instance itself always")
         else:
             ctx.fail("PRE-ORDER", u, texts[1][2], f"`yield from X.descend()` is emitted under {g}; expected under self._recurse, and `yield X` unconditionally", construct="recursion flag")
@@ -113,6 +134,25 @@ def run(ctx) -> None:
         else:
             ctx.fail("DISPATCH", g, g.node, f"{gname} names its methods {sorted(templates(g))} while the classes dispatch to {sorted(cls_templates)}: accept()/transform() would call a method the visitor does not define", construct=f"{gname}: method name template")
         gen.check_full_iteration(ctx, "DISPATCH", g, "concrete_classes", gname)
+    # every concrete class gets its own descend_once / descend / accept* / transform*: the block is generated under the class-kind test only
+    gp0 = S.parents_of(gcls)
+    sites = []
+    for n in walk_function_body(gcls.node):
+        if isinstance(n, ast.Call) and dotted_of(n.func) in ("_generate_descend_once_method", "_generate_descend_method"):
+            sites.append((dotted_of(n.func), n))
+        if isinstance(n, ast.JoinedStr):
+            lit = "".join(str(v.value) for v in n.values if isinstance(v, ast.Constant))
+            for key in ("def accept(", "def accept_with_context(", "def transform(", "def transform_with_context("):
+                if key in lit:
+                    sites.append((key.strip("("), n))
+    ctx.require_anchor(len(sites) >= 6, "_generate_class emits descend_once, descend, accept, accept_with_context, transform, transform_with_context")
+    for label, n in sites:
+        g = _atoms(S.guards_of(n, gp0))
+        what = f"_generate_class: `{label}` is generated for every concrete class"
+        if g and all(x in ("isinstance(cls, intermediate.ConcreteClass)", "isinstance(cls, ConcreteClass)") for x in g):
+            ctx.ok("DISPATCH", gcls, n, what=what)
+        else:
+            ctx.fail("DISPATCH", gcls, n, f"`{label}` is generated under {g}; expected under `isinstance(cls, intermediate.ConcreteClass)` alone: a concrete class excluded by the extra condition inherits accept()/transform() of its parent and is dispatched to the parent's visit method", construct=what)
     # accept bodies call the method on the visitor with self
     acc = [n for n in walk_function_body(gcls.node) if isinstance(n, ast.JoinedStr) and any(isinstance(v, ast.Constant) and "def accept(" in str(v.value) for v in n.values)]
     if acc and any(isinstance(v, ast.FormattedValue) and dotted_of(v.value) == "visit_name" for v in acc[0].values) and any(isinstance(v, ast.Constant) and "(self)" in str(v.value) for v in acc[0].values):
